@@ -7,7 +7,8 @@
 //
 //	| par n <N> m <M> cap <C> ops <op>* (th <op>*)+          prefix, then the th-blocks run concurrently
 //
-// op    := A c        AcceptConnection with transport c (ids are never reused: a second A c is skipped)
+// op    := A c        AcceptConnection with transport c; an id in use is refused (real call), an id whose
+//                     connection was torn down comes back as a new incarnation on a new transport
 //
 //	| H c x t    Handshake packet on c up to and including the auth handler (x=0: handler refuses;
 //	             x>0: handler authenticates as client x = SetClientID+SetAuthenticated), t = c|t
@@ -542,11 +543,17 @@ func (w *world) exec(o op, gated bool) {
 			return
 		}
 		if w.accepted[c] {
-			// the id is taken (ids are unique, C15): the real call must refuse and change nothing
-			if !w.adp {
-				_, _ = w.sm.AcceptConnection(w.tr[c], w.tr[c])
+			_, tracked := w.sm.GetConnection(cid(c))
+			if tracked || w.inflight[c] != nil || w.loopAlive(c) {
+				// the id is in use (or a packet of its previous incarnation is still being handled, which the
+				// harness does not combine with a comeback): the real call must refuse and change nothing
+				if !w.adp && tracked {
+					_, _ = w.sm.AcceptConnection(w.tr[c], w.tr[c])
+				}
+				return
 			}
-			return
+			// the id comes back after its connection was torn down: a new incarnation on a new transport
+			w.tr[c] = newFconn(cid(c), w.adp)
 		}
 		w.accepted[c] = true
 		if w.adp {
@@ -986,7 +993,7 @@ func alphabet(n, m int, full bool) []op {
 		al = append(al, op{k: "XF", a: c})
 		if full {
 			al = append(al, op{k: "HS", a: c, b: 0, t: "c"}, op{k: "QS", a: c, t: "c"}, op{k: "B", a: c}, op{k: "T", a: c})
-			al = append(al, op{k: "RF", a: c})
+			al = append(al, op{k: "RF", a: c}, op{k: "A", a: c})
 		}
 	}
 	for x := 1; x <= m; x++ {
